@@ -19,6 +19,7 @@ func init() {
 	register(&Rule{ID: "C08.SELFKEY", Min: 0, Doc: "a map is not read with a transformed copy of its own iteration key", Run: runC08SelfKey})
 	register(&Rule{ID: "C01.NILELEM", Min: 3, Doc: "a parse result that may be nil is not stored as an element of a sequence or mapping without a nil test", Run: runC01NilElem})
 	register(&Rule{ID: "C14.WHOLE", Min: 4, Doc: "the type of a placeholder stands for the whole scalar only when the scalar is exactly one placeholder", Run: runC14Whole})
+	register(&Rule{ID: "C11.SCAN", Min: 1, Doc: "the scan over the placeholders of a scalar stops early only on a syntax error", Run: runC11Scan})
 	register(&Rule{ID: "C03.DEFER", Min: 1, Doc: "a value parsed before the node it belongs to exists is handed over when the node is created (key order independence)", Run: runC03Defer})
 }
 
@@ -573,4 +574,73 @@ func naturalLoop(h *ssa.BasicBlock) map[*ssa.BasicBlock]bool {
 		}
 	}
 	return body
+}
+
+// ---- C11.SCAN ----
+
+// The scan over the placeholders of one scalar may only stop early when the parser could not delimit the placeholder
+// (syntax error): a semantic diagnostic in one placeholder says nothing about the next one.
+func runC11Scan(c *Ctx) {
+	p := c.P
+	fn := p.Method("RuleExpression", "checkExprsIn")
+	if fn == nil {
+		c.anchorMissing("(*RuleExpression).checkExprsIn")
+		return
+	}
+	calls := findCalls(fn, "(*RuleExpression).checkSemantics")
+	if len(calls) != 1 {
+		c.bad("(*RuleExpression).checkExprsIn|scan", fn.Pos(), fmt.Sprintf("%d calls of checkSemantics", len(calls)))
+		return
+	}
+	call := calls[0].(*ssa.Call)
+	var hdr *ssa.BasicBlock
+	for _, b := range fn.Blocks {
+		if b.Dominates(call.Block()) && len(naturalLoop(b)) > 1 && naturalLoop(b)[call.Block()] {
+			hdr = b // innermost header dominating the call: keep the last (deepest) one
+		}
+	}
+	if hdr == nil {
+		c.bad("(*RuleExpression).checkExprsIn|scan", fn.Pos(), "the placeholders are not scanned in a loop")
+		return
+	}
+	n := 0
+	for _, b := range fn.Blocks {
+		ret, ok := b.Instrs[len(b.Instrs)-1].(*ssa.Return)
+		if !ok || !reachableBlocks(call.Block().Succs, nil)[b] && b != call.Block() {
+			continue
+		}
+		// returns that can be reached from the call without going through the loop header again are exits taken because
+		// of this placeholder
+		stop := map[*ssa.BasicBlock]bool{hdr: true}
+		if !reachableBlocks(call.Block().Succs, stop)[b] {
+			continue
+		}
+		n++
+		construct := fmt.Sprintf("(*RuleExpression).checkExprsIn|early exit#%d", n)
+		onlySemantic := false
+		parseFailed := false
+		for ifi, outcome := range controllingConds(b) {
+			if ex, ok := ifi.Cond.(*ssa.Extract); ok && ex.Tuple == ssa.Value(call) && ex.Index == 2 && !outcome {
+				onlySemantic = true
+			}
+			if v, nilSucc, ok := nilTest(ifi); ok {
+				if ex, ok := v.(*ssa.Extract); ok && ex.Tuple == ssa.Value(call) && ex.Index == 0 && (nilSucc == 0) == outcome {
+					parseFailed = true
+				}
+			}
+			if bo, ok := ifi.Cond.(*ssa.BinOp); ok && bo.Op == token.EQL && outcome {
+				if ex, ok := bo.X.(*ssa.Extract); ok && ex.Tuple == ssa.Value(call) && ex.Index == 1 {
+					parseFailed = true
+				}
+			}
+		}
+		if onlySemantic && !parseFailed {
+			c.bad("(*RuleExpression).checkExprsIn|stops after a placeholder with a diagnostic", ret.Pos(), "the scan of a scalar stops at the first placeholder with any diagnostic: later placeholders of the same scalar are not checked (an untrusted input, a context that is not available or a syntax error in them is not reported)")
+		} else {
+			c.ok(construct, ret.Pos(), "the scan only stops where the end of the placeholder is unknown")
+		}
+	}
+	if n == 0 {
+		c.undecided("(*RuleExpression).checkExprsIn|early exit", fn.Pos(), "no exit from the scan found")
+	}
 }
